@@ -292,7 +292,9 @@ class Quote(BlockToken):
 
     @staticmethod
     def convert_leading_tabs(string):
-        string = string.replace('>\t', '   ', 1)
+        if string.startswith('>\t'):
+            # only the marker itself: '>' and a tab elsewhere in the line are content
+            string = '   ' + string[2:]
         count = 0
         for i, c in enumerate(string):
             if c == '\t':
